@@ -21,56 +21,75 @@ def newImage (k : ImgK) (idx : Nat) (ts : List Term) : Res Term :=
 
 namespace EFormat
 
-/-- `fold_atom` -/
-def foldAtom (F : EFormat) (pre name : Str) : Res Term :=
-  if pre = F.preWord then .ok (.atom .word name)
-  else if pre = F.prePlaceholder then .ok .placeholder
-  else if pre = F.preIVar then .ok (.atom .ivar name)
-  else if pre = F.preDVar then .ok (.atom .dvar name)
-  else if pre = F.preQVar then .ok (.atom .qvar name)
-  else if pre = F.preInterval then
+/-- prefixes in the order `fold_atom` compares them -/
+def foldAtomTable (F : EFormat) : List (Str × AtomHead) :=
+  [ (F.preWord, .named .word),
+    (F.prePlaceholder, .placeholder),
+    (F.preIVar, .named .ivar),
+    (F.preDVar, .named .dvar),
+    (F.preQVar, .named .qvar),
+    (F.preInterval, .interval),
+    (F.preOperator, .named .op) ]
+
+def buildAtom : AtomHead → Str → Res Term
+  | .named k, name => .ok (.atom k name)
+  | .placeholder, _ => .ok .placeholder
+  | .interval, name =>
     match parseUsize name with
     | some n => .ok (.interval n)
     | none => .err
-  else if pre = F.preOperator then .ok (.atom .op name)
-  else .err
 
-/-- `fold_compound` (after the D4 repair) -/
-def foldCompound (F : EFormat) (conn : Str) (ts : List Term) : Res Term :=
-  if conn = F.cExtInt then .ok (.setlike .extInt (Terms.ofList (mkSetSem ts)))
-  else if conn = F.cIntInt then .ok (.setlike .intInt (Terms.ofList (mkSetSem ts)))
-  else if conn = F.cExtDiff then
+/-- `fold_atom`: first prefix EQUAL to the lexical one -/
+def foldAtom (F : EFormat) (pre name : Str) : Res Term :=
+  match F.foldAtomTable.find? (fun e => pre = e.1) with
+  | some (_, hd) => buildAtom hd name
+  | none => .err
+
+/-- connecters in the order `fold_compound` compares them -/
+def foldConnTable (F : EFormat) : List (Str × ConnK) :=
+  [ (F.cExtInt, .set .extInt),
+    (F.cIntInt, .set .intInt),
+    (F.cExtDiff, .diff .extDiff),
+    (F.cIntDiff, .diff .intDiff),
+    (F.cProduct, .seq .product),
+    (F.cExtImg, .img .ext),
+    (F.cIntImg, .img .int),
+    (F.cConj, .set .conj),
+    (F.cDisj, .set .disj),
+    (F.cNeg, .neg),
+    (F.cSeqConj, .seq .seqConj),
+    (F.cParConj, .set .parConj) ]
+
+/-- what `fold_compound` builds for a connecter class (after the D4 repair: each difference connecter
+builds its own difference). Surplus components of negation / differences are ignored. -/
+def buildCompound : ConnK → List Term → Res Term
+  | .set k, ts => .ok (.setlike k (Terms.ofList (mkSetSem ts)))
+  | .seq k, ts => .ok (.seqlike k (Terms.ofList ts))
+  | .diff k, ts =>
     match ts with
-    | a :: b :: _ => .ok (.bin .extDiff a b)
+    | a :: b :: _ => .ok (.bin k a b)
     | _ => .err
-  else if conn = F.cIntDiff then
-    match ts with
-    | a :: b :: _ => .ok (.bin .intDiff a b)
-    | _ => .err
-  else if conn = F.cProduct then .ok (.seqlike .product (Terms.ofList ts))
-  else if conn = F.cExtImg then
+  | .img k, ts =>
     match toTermsWithImage ts 0 none [] with
-    | (some i, ts') => newImage .ext i ts'
+    | (some i, ts') => newImage k i ts'
     | (none, _) => .err
-  else if conn = F.cIntImg then
-    match toTermsWithImage ts 0 none [] with
-    | (some i, ts') => newImage .int i ts'
-    | (none, _) => .err
-  else if conn = F.cConj then .ok (.setlike .conj (Terms.ofList (mkSetSem ts)))
-  else if conn = F.cDisj then .ok (.setlike .disj (Terms.ofList (mkSetSem ts)))
-  else if conn = F.cNeg then
+  | .neg, ts =>
     match ts with
     | a :: _ => .ok (.neg a)
     | [] => .err
-  else if conn = F.cSeqConj then .ok (.seqlike .seqConj (Terms.ofList ts))
-  else if conn = F.cParConj then .ok (.setlike .parConj (Terms.ofList (mkSetSem ts)))
-  else .err
+  | .operatorUnsupported, _ => .err
+
+/-- `fold_compound` -/
+def foldCompound (F : EFormat) (conn : Str) (ts : List Term) : Res Term :=
+  match F.foldConnTable.find? (fun e => conn = e.1) with
+  | some (_, ck) => buildCompound ck ts
+  | none => .err
 
 /-- `fold_set` -/
 def foldSet (F : EFormat) (l r : Str) (ts : List Term) : Res Term :=
-  if (l, r) = (F.extSetL, F.extSetR) then .ok (.setlike .extSet (Terms.ofList (mkSetSem ts)))
-  else if (l, r) = (F.intSetL, F.intSetR) then .ok (.setlike .intSet (Terms.ofList (mkSetSem ts)))
-  else .err
+  match [((F.extSetL, F.extSetR), SetK.extSet), ((F.intSetL, F.intSetR), SetK.intSet)].find? (fun e => (l, r) = e.1) with
+  | some (_, k) => .ok (.setlike k (Terms.ofList (mkSetSem ts)))
+  | none => .err
 
 /-- `fold_statement` -/
 def foldStatement (F : EFormat) (cop : Str) (s p : Term) : Res Term :=
